@@ -14,6 +14,8 @@
      Go string              list Z: an immutable VALUE
      Go error               option g_error (generated), nil = None
      Go io.Writer/io.Reader oracles (functions), see the end of the file
+     struct with a pointer receiver: a record; a []byte field is a slice value (the heap is shared), a
+                            [N]byte field is a slice HANDLE (array, 0, N, N) of a heap cell owned by the object
    Computations
      M A = world -> res (A * world), res = Ok | Panic | OutOfFuel (GoSlices.v).  Panic = a Go run-time
      panic (index / slice bounds, negative make); OutOfFuel = a loop ran longer than its fuel.
@@ -143,10 +145,59 @@ Definition g_writer (E : Type) : Type := list (list Z) -> list Z -> Z * option E
 Definition m_io_write {E : Type} (wr : g_writer E) (s : slice) : M (Z * option E) := fun w =>
   let bs := sl_bytes w s in
   Ok (wr (w_out w) bs, mk_world (w_heap w) (w_out w ++ [bs])).
-(* io.Reader: a function from len(p) to (the bytes it stores at the front of p, n, err); storing more
-   than len(p) bytes is a Panic; 0 <= n <= len(p) is the io.Reader contract and a HYPOTHESIS of the
-   theorems, not built in *)
-Definition g_reader (E : Type) : Type := Z -> list Z * Z * option E.
-Definition m_io_read {E : Type} (rd : g_reader E) (s : slice) : M (Z * option E) := fun w =>
-  let '(d, n, e) := rd (sl_len s) in
-  if go_len d <=? sl_len s then Ok ((n, e), sl_blit w s 0 d) else Panic.
+(* io.Reader (v4): a STATEFUL oracle.  A reader value is the history of its earlier calls (the len(p) of each,
+   oldest first) together with an arbitrary function from that history and the len(p) of this call to
+   (the bytes it stores at the front of p, n, err); a call returns the reader with the history extended, and
+   the translator stores it back into the variable / field the reader was taken from.  Storing more than
+   len(p) bytes is a Panic; 0 <= n <= len(p) is the io.Reader contract and a HYPOTHESIS of the theorems, not
+   built in. *)
+Record g_reader (E : Type) : Type :=
+  mk_reader { rd_hist : list Z; rd_fun : list Z -> Z -> list Z * Z * option E }.
+Arguments mk_reader {E} _ _.
+Arguments rd_hist {E} _.
+Arguments rd_fun {E} _ _ _.
+Definition rd_next {E : Type} (rd : g_reader E) (k : Z) : g_reader E := mk_reader (rd_hist rd ++ [k]) (rd_fun rd).
+Definition m_io_read {E : Type} (rd : g_reader E) (s : slice) : M (Z * option E * g_reader E) := fun w =>
+  let '(d, n, e) := rd_fun rd (rd_hist rd) (sl_len s) in
+  if go_len d <=? sl_len s then Ok ((n, e, rd_next rd (sl_len s)), sl_blit w s 0 d) else Panic.
+
+(* io.ReadFull(r, buf) = io.ReadAtLeast(r, buf, len(buf)) (io/io.go), transcribed over the oracle:
+     for n < min && err == nil { nn, err = r.Read(buf[n:]); n += nn }
+     if n >= min { err = nil } else if n > 0 && err == EOF { err = ErrUnexpectedEOF }
+   eof / unexp / is_eof are io.EOF, io.ErrUnexpectedEOF and the comparison with io.EOF in the error type of the
+   caller.  Fuel len(buf) + 2: enough for every reader that makes progress (n > 0 or an error on a non-empty
+   buffer); a reader that keeps answering (0, nil) makes Go loop forever and this function OutOfFuel. *)
+Definition m_read_full_body {E : Type} (s : slice) (st : Z * option E * g_reader E)
+  : M (step (Z * option E * g_reader E) unit) :=
+  let '(n, err, rd) := st in
+  if (n <? sl_len s) && (match err with None => true | Some _ => false end)
+  then mbind (m_slice s n (sl_len s)) (fun sub =>
+       mbind (m_io_read rd sub) (fun '(nn, err', rd') =>
+       ret (Continue (n + nn, err', rd'))))
+  else ret (Break (n, err, rd)).
+Definition m_io_read_full {E : Type} (eof unexp : E) (is_eof : E -> bool) (rd : g_reader E) (s : slice)
+  : M (Z * option E * g_reader E) :=
+  mbind (m_loop (Z.to_nat (sl_len s) + 2) (m_read_full_body s) (0, None, rd))
+        (fun r => match r with
+                  | inr _ => m_panic
+                  | inl (n, err, rd) =>
+                      let err := if sl_len s <=? n then None
+                                 else if (0 <? n) && (match err with Some e => is_eof e | None => false end)
+                                      then Some unexp else err in
+                      ret (n, err, rd)
+                  end).
+
+(* make([]byte, n, c): a new zeroed array of c bytes, len n *)
+Definition m_make_cap (n c : Z) : M slice := fun w =>
+  if (0 <=? n) && (n <=? c) && (c <=? 9223372036854775807)
+  then Ok (mk_slice (length (w_heap w)) 0 n c,
+           mk_world (w_heap w ++ [repeat 0 (Z.to_nat c)]) (w_out w))
+  else Panic.
+
+(* copy(a[lo:hi], src) into an array VALUE a (a local array / a field of a local struct value; the temporary
+   slice cannot escape): the count and the updated array *)
+Definition v_copy_into (a : list Z) (lo hi : Z) (src : list Z) : res (Z * list Z) :=
+  if (0 <=? lo) && (lo <=? hi) && (hi <=? go_len a)
+  then let n := Z.min (hi - lo) (go_len src) in
+       Ok (n, list_blit a (Z.to_nat lo) (firstn (Z.to_nat n) src))
+  else Panic.
